@@ -40,11 +40,15 @@ nnls_lawson_hanson(cholmod_sparse *A, cholmod_dense *y, double tolerance,
 {
         cholmod_dense *x, *w, *p, *yp;
         cholmod_sparse *Ap;
-        long P[A->ncol], Z[A->ncol];
+        long *P, *Z;
         unsigned int nP, nZ;
         double wmax, wpmin, alpha, qtemp;
         int i, j, n, t, qmax;
         int last_freed = -1;
+
+        /* The index sets live on the heap: their size grows with the problem */
+        P = (long*)malloc(sizeof(long)*(A->ncol + 1));
+        Z = (long*)malloc(sizeof(long)*(A->ncol + 1));
 
         /* By default, all coefficients are positive */
         if (npos == 0)
@@ -254,6 +258,8 @@ nnls_lawson_hanson(cholmod_sparse *A, cholmod_dense *y, double tolerance,
 
         /* Step 12: return */
         cholmod_l_free_dense(&w, c);
+        free(P);
+        free(Z);
         return (x);
 }
 
@@ -277,8 +283,8 @@ nnls_normal_block(cholmod_sparse *AtA, cholmod_dense *Atb, int verbose,
    cholmod_common *c)
 {
         int nvar = AtA->nrow;
-        long F[nvar], G[nvar];
-        int H1[nvar], H2[nvar];
+        long *F, *G;
+        int *H1, *H2;
         cholmod_dense *x, *y, *x_F, *Atb_F;
         cholmod_sparse *AtA_F;
         int nF, nG, nH1, nH2, ninf;
@@ -295,6 +301,12 @@ nnls_normal_block(cholmod_sparse *AtA, cholmod_dense *Atb, int verbose,
         trials = MAX_TRIALS;        /* Runs without progress before reverting
                                  * to a deterministic algorithm */
         murty_steps = MAX_TRIALS;
+
+        /* The index sets live on the heap: their size grows with the problem */
+        F  = (long*)malloc(sizeof(long)*(nvar + 1));
+        G  = (long*)malloc(sizeof(long)*(nvar + 1));
+        H1 = (int*)malloc(sizeof(int)*(nvar + 1));
+        H2 = (int*)malloc(sizeof(int)*(nvar + 1));
 
         x = cholmod_l_zeros(nvar, 1, CHOLMOD_REAL, c);
         y = cholmod_l_allocate_dense(nvar, 1, nvar, CHOLMOD_REAL, c);
@@ -471,6 +483,10 @@ nnls_normal_block(cholmod_sparse *AtA, cholmod_dense *Atb, int verbose,
         }
 
         cholmod_l_free_dense(&y, c);
+        free(F);
+        free(G);
+        free(H1);
+        free(H2);
 
         return (x);
 }
